@@ -1853,6 +1853,7 @@ func (m *repoManager) newVersion(parent dvid.UUID, note string, branchname strin
 		r.RUnlock()
 	}
 
+	dvid.VerifYield("datastore.newVersion")
 	// Add the child node.  Since it's new and unavailable, no need to lock it.
 	childUUID, childV, err := m.newUUID(assign)
 	if err != nil {
